@@ -768,8 +768,21 @@ def check_C14(tier):
     # stage 2 (tolerant, decides): joint column distribution of every pair of rows + documented bound
     N = 4096 if quick else 20000
     W = 4
-    keys = [bytes(rng.randrange(256) for _ in range(rng.randint(1, 12))) + i.to_bytes(3, "little") for i in range(N)]
+    # key sets of one length class each (short, one block, just over a block, long): a scheme that treats
+    # some lengths differently must not hide behind the others
+    def keyset(lo, hi):
+        return [bytes(rng.randrange(256) for _ in range(rng.randint(lo, hi))) + i.to_bytes(3, "little") for i in range(N)]
+    classes = [keyset(0, 4), keyset(5, 5), keyset(6, 13), keyset(14, 40)]
+    keys = classes[0][: N // 4] + classes[1][N // 4: N // 2] + classes[2][N // 2: 3 * N // 4] + classes[3][3 * N // 4:]
     stat = []
+    for ci, ks in enumerate(classes):
+        cols = np.array([impl.cm_cols(lambda: cm.CountMinLinear(W, 4), k) for k in ks[: N // 2]]) - 1
+        for a in range(4):
+            for b in range(a + 1, 4):
+                cnt = np.zeros((W, W), int)
+                np.add.at(cnt, (cols[:, a], cols[:, b]), 1)
+                stat.append({"fn": "joint", "counts": cnt.tolist(), "n": N // 2, "W": W, "out": "ok", "rows": [a, b],
+                             "depth": 4, "length_class": ci})
     for D, mk in ((3, lambda: cm.CountMinLinear(W, 3)), (4, lambda: cm.CountMinLog8(W, 4)),
                   (5, lambda: cm.CountMinLog16(W, 5))) + (() if quick else ((8, lambda: cm.CountMinLinear(W, 8)),
                                                                             (7, lambda: cm.CountMinLog8(W, 7)))):
